@@ -27,14 +27,24 @@ TRUSTED_BASE = [
 ]
 
 
-def family_of(prop):
-    import sched_family
-    import valid_family
-    import text_family
+SCHED_PROPS = {"C01", "C02", "C03", "C04", "C05", "C06", "C07", "C08", "C14", "C15", "C17", "C18", "C20"}
+VALID_PROPS = {"C09", "C10", "C11", "C16", "C19"}
+TEXT_PROPS = {"C12", "C13"}
 
-    for fam in (sched_family, valid_family, text_family):
-        if prop in fam.PROPS:
-            return fam
+
+def family_of(prop):
+    if prop in SCHED_PROPS:
+        import sched_family
+
+        return sched_family
+    if prop in VALID_PROPS:
+        import valid_family
+
+        return valid_family
+    if prop in TEXT_PROPS:
+        import text_family
+
+        return text_family
     return None
 
 
